@@ -596,7 +596,7 @@ pub fn run(ctx: &mut Ctx, rep: &mut Report) {
             "menu",
             "product: all 8^M DNA matrices built from an 8-row menu (incl. rows whose byte image is x.5, so that already M=2 pushes the consensus sum past 255, and a row with a 2^20 common offset), M in 1..=4 (thorough 1..=5), \
              x wildcard column {-inf, row minimum - 1, row mean, above the row maximum} x 14 kernels {generic U16/U32, sse2 U16/U32, avx2 saturating, dispatcher arms, scalar DiscreteMatrix::score_position; generic / avx2 / dispatcher arms block by block through score_rows_into on a reused buffer} \
-             on a de Bruijn word containing EVERY 5^M window (wildcard included; for M >= 3 and the first two wildcard kinds also on the same sequence object configured for a 2-column motif first, i.e. look-ahead rows added in two steps; for the -inf wildcard kind also configured for a motif 4 columns longer first) and on windows of it of length M and M+1 (sequence exactly as long as the motif); oracle: u8 >= scale(real) at every position and, for every attainable threshold, real>=t => u8>=scale(t); the PRE-FILTER as the scanner applies it, for {generic, sse2, avx2, dispatcher arms} on row blocks {all, 0..1, 1..a, a..R} of a reused buffer: Maximum<u8>::max of the block >= the largest byte image in the block, and Threshold<u8>::threshold(block, scale(t)) selects every position with real >= t (<= 16 attainable thresholds); and the real Scanner under each dispatcher arm at thresholds {lowest, median, highest finite real score} x block sizes {1, 256} yields every position with real >= t; \
+             on a de Bruijn word containing EVERY 5^M window (wildcard included; for M >= 3 and the first two wildcard kinds also on the same sequence object configured for a 2-column motif first, i.e. look-ahead rows added in two steps; for the -inf wildcard kind also configured for a motif 4 columns longer first, and on hand-built striped sequences with 1 and 3 spare sequence rows (StripedSequence::new)) and on windows of it of length M and M+1 (sequence exactly as long as the motif); oracle: u8 >= scale(real) at every position and, for every attainable threshold, real>=t => u8>=scale(t); the PRE-FILTER as the scanner applies it, for {generic, sse2, avx2, dispatcher arms} on row blocks {all, 0..1, 1..a, a..R} of a reused buffer: Maximum<u8>::max of the block >= the largest byte image in the block, and Threshold<u8>::threshold(block, scale(t)) selects every position with real >= t (<= 16 attainable thresholds); and the real Scanner under each dispatcher arm at thresholds {lowest, median, highest finite real score} x block sizes {1, 256} yields every position with real >= t; \
              evaluations = kernel runs; non-trivial = some window has a finite real score",
         );
         for m in 1..=(if ctx.quick() { 4usize } else { 5 }) {
@@ -698,7 +698,7 @@ pub fn run(ctx: &mut Ctx, rep: &mut Report) {
         rep.space(
             "wide",
             "wide matrices M in {5,8,16,30,64,255,256,257} (thorough + {12,100,254,300,511,512,513}) x 3 cell flavours whose rounded-up row maxima sum past 255, and log-odds matrices from a count menu (M in {6,15,20}); \
-             sequence = consensus, anti-consensus, every single-substitution neighbour of the consensus (wildcard included) concatenated, fresh, re-configured from 2 and M/2 look-ahead rows and configured for M+5 first; same 14 kernels + pre-filter; protein: 5 kernels on M in {3,8,40}",
+             sequence = consensus, anti-consensus, every single-substitution neighbour of the consensus (wildcard included) concatenated, fresh, re-configured from 2 and M/2 look-ahead rows, configured for M+5 first, and hand-built with 1 and 2 spare sequence rows; same 14 kernels + pre-filter; protein: 5 kernels on M in {3,8,40}",
         );
         // 255/256/257: the number of rows reaches the range of the byte (headroom = 255 - M saturates at 0)
         let mut widths = vec![5usize, 8, 16, 30, 64, 255, 256, 257];
